@@ -1,7 +1,8 @@
 (* C13 driver body (after `open C13_model` and drvlib.ml).
    run <expired> A <dt> <shape> <vals> <ops...>                              array image
    run <expired> P <dt> <shape> <filevals> <slope|-> <inter|-> <mmap> <gz> <ops...>   proxy image
-   dt: i2|f4|f8   shape: 2.2.2   vals: 1,2,3   ops: f8 f4 fi u8 u4 ui as sl sf un ed im gf gu
+   dt: i2|f4|f8   shape: 2.2.2   vals: 1,2,3   ops: f8 f4 fi u8 u4 ui x8 x4 y8 y4 (get_fdata while the file cannot be opened) as sl sf sb (explicit full bounds)
+   r:<mask> (full-length slices, axes with 1 reversed) un ed im gf gu
    hs:<s>:<i>|hs:- hh:<shape> hd:<dt> os:.. oh:.. od:.. rh rs
    -> ok <out>* | F <id>=<vals>;... | spec=ok|DIFF@<i>
    Every step is also run through the abstract specification (sstep on abs of the state) and
@@ -21,14 +22,17 @@ let str_scl = function None -> "-" | Some (s, i) -> string_of_z s ^ "," ^ string
 let op_of tok = match split ':' tok with
   | ["f8"] -> GetFdata (Fill, F8) | ["f4"] -> GetFdata (Fill, F4) | ["fi"] -> GetFdata (Fill, I2)
   | ["u8"] -> GetFdata (Unchanged, F8) | ["u4"] -> GetFdata (Unchanged, F4) | ["ui"] -> GetFdata (Unchanged, I2)
-  | ["as"] -> AsArray | ["sl"] -> Slice SLast1 | ["sf"] -> Slice SFull
+  | ["x8"] -> FdataBroken (Fill, F8) | ["x4"] -> FdataBroken (Fill, F4)
+  | ["y8"] -> FdataBroken (Unchanged, F8) | ["y4"] -> FdataBroken (Unchanged, F4)
+  | ["as"] -> AsArray | ["sl"] -> Slice SLast1 | ["sf"] -> Slice SFull | ["sb"] -> Slice SFull
+  | ["r"; m] -> Slice (SRev (List.init (String.length m) (fun i -> m.[i] = '1')))
   | ["un"] -> Uncache | ["ed"] -> EditLast | ["im"] -> InMemory | ["gf"] -> GetData Fill | ["gu"] -> GetData Unchanged
   | "hs" :: a -> HdrScl (scl_of a) | ["hh"; s] -> HdrShape (shape_of s) | ["hd"; d] -> HdrDt (dt_of d)
   | "os" :: a -> OrigScl (scl_of a) | ["oh"; s] -> OrigShape (shape_of s) | ["od"; d] -> OrigDt (dt_of d)
   | ["rh"] -> ReadHdr | ["rs"] -> ReadSpec
   | _ -> failwith ("op " ^ tok)
 let str_err = function ENotFloat -> "not_float" | EExpired -> "expired" | EReadOnly -> "read_only"
-  | EIndex -> "index" | EShortFile -> "short_file"
+  | EIndex -> "index" | EShortFile -> "short_file" | EUnreadable -> "unreadable"
 let str_out h = function
   | ONone -> "-"
   | OArr o -> let ob = get_obj h o in
